@@ -87,9 +87,12 @@ Preds(S, d) == {x \in DelsOf(S, d[2]) : x # d /\ S.del[x].n < S.del[d].n}
 \* fly, even though we (sort of) do"): the guarantee is only claimed between deliveries created
 \* while ordering was enabled; ghost gord[s] is the delivery number watermark at the switch.
 OrdSince(S, s) == IF "gord" \in DOMAIN S /\ s \in DOMAIN S.gord THEN S.gord[s] ELSE 0
-Blocked(S, d, t) ==
+\* X: predecessors that the step under judgement itself retires (a pull dead-letters a
+\* predecessor that is over its attempt budget and hands out the successor in the same step)
+BlockedX(S, d, t, X) ==
   /\ S.subs[d[2]].ord /\ KeyOf(S, d) # ""
-  /\ \E x \in Preds(S, d) : KeyOf(S, x) = KeyOf(S, d) /\ OutDef(S, x, t) /\ S.del[x].n > OrdSince(S, d[2])
+  /\ \E x \in Preds(S, d) \ X : KeyOf(S, x) = KeyOf(S, d) /\ OutDef(S, x, t) /\ S.del[x].n > OrdSince(S, d[2])
+Blocked(S, d, t) == BlockedX(S, d, t, {})
 (* The implementation serialises a keyed message of an ordered             *)
 (* subscription behind EVERY earlier message of the subscription (named    *)
 (* deviation, stricter than the contract).  The progress clauses therefore *)
@@ -179,13 +182,18 @@ VDeleteTopic(S, e, S2) ==
               THEN /\ ~S2.topics[t].live /\ In(S2.topics[t].delAt, e.t0, e.t1)
                    /\ S2.topics[t].name = S.topics[t].name
               ELSE S2.topics[t] = S.topics[t])
-    \* deleting a topic may drop that topic's snapshots, nothing else
+    \* deleting a topic drops that topic's snapshots, nothing else
     \cup Chk("C12:delete-topic-frame",
          /\ RestSame(S, S2, {"subs", "msgs", "del"})
          /\ DOMAIN S2.snaps \subseteq DOMAIN S.snaps
          /\ \A n \in DOMAIN S.snaps :
               IF n \in DOMAIN S2.snaps THEN S2.snaps[n] = S.snaps[n]
               ELSE S.snaps[n].topic \in T)
+    \* a snapshot belongs to its topic (actions/delete-topic.go, the reference model's DeleteTopic):
+    \* it is not a live resource once the topic is deleted - Get / List must not show it and its
+    \* name is reusable
+    \cup Chk("C12:delete-topic-keeps-snapshot",
+         \A n \in DOMAIN S.snaps : S.snaps[n].topic \in T => n \notin DOMAIN S2.snaps)
 
 CfgFields == {"ttl", "mttl", "ord", "filt", "minB", "maxB", "maxAtt", "push", "labels"}
 
@@ -349,7 +357,7 @@ VPull(S, e, S2) ==
     \cup Chk("C02:pull-returns-completed", \A i \in known : ~IsDone(S, G[i].d))
     \cup Chk("C04:pull-before-deadline", \A i \in known : S.del[G[i].d].at <= e.t1)
     \cup Chk("C14:pull-after-retention", \A i \in known : S.del[G[i].d].exp >= e.t0)
-    \cup Chk("C05:pull-overtakes-same-key", \A i \in known : ~Blocked(S, G[i].d, e.t1))
+    \cup Chk("C05:pull-overtakes-same-key", \A i \in known : ~BlockedX(S, G[i].d, e.t1, D))
     \cup Chk("C06:pull-over-max-attempts", \A i \in known : ~DLable(S, G[i].d))
     \cup Chk("C04:pull-attempt-number",
         \A i \in known : /\ G[i].att = S.del[G[i].d].att + 1
@@ -454,12 +462,14 @@ VNack(S, e, S2) ==
     \cup Chk("C04:nack-frame", RestSame(S, S2, {"topics", "subs", "msgs", "snaps"}))
 
 (* One StreamingPull request carrying acknowledgements (ids) and zero       *)
-(* deadlines (nids): ONE transaction of the stream's reader.  It is judged  *)
-(* as an Acknowledge followed, without any state in between being visible, *)
-(* by a nack: the intermediate state M is S with the acknowledged          *)
-(* deliveries taking their final records.                                  *)
+(* deadlines (nids): the stream's reader runs an acknowledgement            *)
+(* transaction and then a modify-deadline transaction.  As ONE model step   *)
+(* (operation StreamAN of the reference model) it is judged as an           *)
+(* Acknowledge followed by ModifyAckDeadline 0; the intermediate state M is *)
+(* S with the acknowledged deliveries taking their final records.  (Traces  *)
+(* of the real code record the two transactions as Ack and ModAck events.)  *)
 EvAck(e) == [op |-> "Ack", sub |-> e.sub, ids |-> e.ids, t0 |-> e.t0, t1 |-> e.t1, code |-> "OK"]
-EvNack(e) == [op |-> "Nack", ids |-> e.nids, bo |-> e.bo, t0 |-> e.t0, t1 |-> e.t1, code |-> "OK"]
+EvMod(e) == [op |-> "ModAck", sub |-> e.sub, ids |-> e.nids, secs |-> 0, t0 |-> e.t0, t1 |-> e.t1, code |-> "OK"]
 MidAN(S, e, S2) ==
   LET A == Named(S, e) IN
   [S EXCEPT !.del = [d \in DOMAIN @ |-> IF d \in A /\ d \in DOMAIN S2.del THEN S2.del[d] ELSE @[d]]]
@@ -482,6 +492,14 @@ SeekOne(S, e, S2, d, want) ==
      ELSE /\ r2.done # -1
           /\ IF r.done # -1 THEN r2 = r
              ELSE In(r2.done, e.t0, e.t1) /\ r2 = [r EXCEPT !.done = r2.done]
+
+\* C14: a delivery that a seek revives (acknowledged before, outstanding after) gets a fresh
+\* retention period - the subscription's message retention, counted from the seek
+SeekRevivedRetention(S, e, S2, s) ==
+  Chk("C14:seek-revived-retention",
+      \A d \in DelsOf(S, s) :
+         (d \in Dels(S2) /\ IsDone(S, d) /\ ~IsDone(S2, d)) =>
+            In(S2.del[d].exp, e.t0 + S.subs[s].mttl, e.t1 + S.subs[s].mttl))
 
 VSeekTime(S, e, S2) ==
   LET X == SubsNamed(S, e.sub) IN
@@ -506,6 +524,7 @@ VSeekTime(S, e, S2) ==
         /\ \A d \in Dels(S) \ DelsOf(S, s) : SameDel(S, S2, d)
         /\ NewDels(S, S2) = {} /\ GoneDels(S, S2) = {})
     \cup Chk("C13:seek-frame", RestSame(S, S2, {"topics", "subs", "msgs", "snaps"}))
+    \cup SeekRevivedRetention(S, e, S2, s)
 
 VCreateSnap(S, e, S2) ==
   LET X == SubsNamed(S, e.sub) ex == e.name \in DOMAIN S.snaps IN
@@ -560,6 +579,7 @@ VSeekSnap(S, e, S2) ==
         /\ \A d \in Dels(S) \ DelsOf(S, s) : SameDel(S, S2, d)
         /\ NewDels(S, S2) = {} /\ GoneDels(S, S2) = {})
     \cup Chk("C13:seek-frame", RestSame(S, S2, {"topics", "subs", "msgs", "snaps"}))
+    \cup SeekRevivedRetention(S, e, S2, s)
 
 (***************************************************************************)
 (* Background jobs (C06 sweep, C14 expiry, C15 pruning)                    *)
@@ -742,7 +762,7 @@ VStreamAN(S, e, S2) ==
   IF e.code # "OK" THEN VErr(S, e, S2)
   ELSE LET M == MidAN(S, e, S2) IN
        VAck(S, EvAck(e), M) \cup VGeneric1(S, EvAck(e), M)
-       \cup VNack(M, EvNack(e), S2) \cup VGeneric1(M, EvNack(e), S2)
+       \cup VModAck(M, EvMod(e), S2) \cup VGeneric1(M, EvMod(e), S2)
 
 VGeneric(S, e, S2) == IF e.op = "StreamAN" /\ e.code = "OK" THEN {} ELSE VGeneric1(S, e, S2)
 
